@@ -40,12 +40,12 @@ func (s *stubSearcher) Next(ctx *search.SearchContext) (*search.DocumentMatch, e
 func (s *stubSearcher) Advance(ctx *search.SearchContext, ID index.IndexInternalID) (*search.DocumentMatch, error) {
 	return nil, fmt.Errorf("not used")
 }
-func (s *stubSearcher) Close() error            { return nil }
-func (s *stubSearcher) Weight() float64         { return 1 }
-func (s *stubSearcher) SetQueryNorm(float64)    {}
-func (s *stubSearcher) Count() uint64           { return uint64(len(s.ms)) }
-func (s *stubSearcher) Min() int                { return 0 }
-func (s *stubSearcher) Size() int               { return 0 }
+func (s *stubSearcher) Close() error               { return nil }
+func (s *stubSearcher) Weight() float64            { return 1 }
+func (s *stubSearcher) SetQueryNorm(float64)       {}
+func (s *stubSearcher) Count() uint64              { return uint64(len(s.ms)) }
+func (s *stubSearcher) Min() int                   { return 0 }
+func (s *stubSearcher) Size() int                  { return 0 }
 func (s *stubSearcher) DocumentMatchPoolSize() int { return 0 }
 
 type stubReader struct {
